@@ -17,14 +17,22 @@
 
 package sql
 
+import (
+	"context"
+	"fmt"
+
+	"seata.apache.org/seata-go/pkg/util/log"
+)
+
 type XATx struct {
 	tx *Tx
+	// conn is the connection whose XA branch this transaction is, ctx the context it was begun with
+	// (nil outside a global transaction: then there is no branch to end)
+	conn *XAConn
+	ctx  context.Context
 }
 
-// Commit do commit action
-// case 1. no open global-transaction, just do local transaction commit
-// case 2. not need flush undolog, is XA mode, do local transaction commit
-// case 3. need run AT transaction
+// Commit ends phase one of the branch
 func (tx *XATx) Commit() error {
 	tx.tx.beforeCommit()
 	return tx.commitOnXA()
@@ -32,13 +40,32 @@ func (tx *XATx) Commit() error {
 
 func (tx *XATx) Rollback() error {
 	originTx := tx.tx
+	if c := tx.conn; c != nil {
+		// the local transaction is over either way: the connection is in auto-commit mode again
+		defer func() { c.autoCommit = true }()
+		if c.xaActive {
+			// XA END(TMFAIL) and XA ROLLBACK; a failed statement has done so already
+			if err := c.Rollback(tx.ctx); err != nil {
+				log.Errorf("failed to rollback xa branch of :%s, err:%v", originTx.tranCtx.XID, err)
+			}
+		}
+	}
 	if originTx.tranCtx.OpenGlobalTransaction() && originTx.tranCtx.IsBranchRegistered() {
 		return originTx.report(false)
 	}
 	return nil
 }
 
-// commitOnXA commit xa and register branch transaction
+// commitOnXA ends the branch and prepares it (XA END, XA PREPARE): what XAConn does for an auto-commit
+// statement once the statement has run. A failure rolls the branch back and is returned.
 func (tx *XATx) commitOnXA() error {
-	return nil
+	c := tx.conn
+	if c == nil {
+		return nil
+	}
+	defer func() { c.autoCommit = true }()
+	if !c.xaActive {
+		return fmt.Errorf("xa branch of xid:%s is not active any more: a statement failed and the branch was rolled back", tx.tx.tranCtx.XID)
+	}
+	return c.Commit(tx.ctx)
 }
